@@ -28,6 +28,7 @@ structure BufEntry where
   presumeNotExists : Bool := false
   newlyInserted : Bool := false   -- the key was inserted earlier in this transaction (insert-then-delete)
   locked : Bool := false          -- pessimistically locked by LockKeys
+  lazyCheck : Bool := false       -- written with the "constraint check in prewrite" flag (deferred check of an unlocked key)
   deriving Repr, Inhabited
 
 /-- the mutation `initKeysAndMutations` derives from one buffer entry (`none` = not sent at all).
@@ -105,6 +106,9 @@ inductive Ev
   | secAnswer (client : String) (startTS : Nat) (minCommits : List Nat) (missing : Bool) (commitTS : Nat)
       -- answer of CheckSecondaryLocks, or (missing = false) the async primary's min_commit_ts from CheckTxnStatus
   | relaxLocks (client : String) (startTS : Nat)            -- aggressive locking call seen for this transaction
+  | bufLazy (client : String) (startTS : Nat) (key : Bytes)   -- the key was written with the constraint-check-in-prewrite flag
+  | prewriteActs (client : String) (startTS : Nat) (acts : List (Bytes × Nat))
+      -- the per-mutation pessimistic action of a prewrite request: 0 skip, 1 pessimistic check, 2 constraint check
   | secCheck (client : String) (startTS : Nat)              -- a CheckSecondaryLocks request (async-commit recovery) was sent by `client`
   | plock (client : String) (fate : Fate) (startTS : Nat) (primary : Bytes) (keys : List Bytes) (ok : Bool)
       -- a PessimisticLock request; ok = answered without a key error
@@ -186,6 +190,16 @@ def checksOf (m : MState) : Ev → List (Bool × String)
     [ (t.primary.isNone || t.primary == some primary, "rule6 heartbeat does not name the primary"),
       (advise ≥ t.lastAdvise, "rule6 advise_ttl decreased"),
       (!t.ended, s!"rule6 heartbeat after the transaction ended (#{t.beatsAfterEnd + 1})") ]
+  | .prewriteActs client startTS acts =>
+    -- rule 9, per-mutation action of a PESSIMISTIC transaction: a key it holds a pessimistic lock on is prewritten with the
+    -- pessimistic check (the store verifies that lock), an unlocked key written with the lazy flag with the constraint
+    -- check, any other key with neither (aggressive locking: lock state not modelled)
+    let t := m.get startTS client
+    [ (!t.pess || t.relaxLocks || t.buffer.isEmpty ||
+        acts.all (fun (k, a) => match t.buffer.find? (·.key == k) with
+          | some b => a == (if b.locked then 1 else if b.lazyCheck then 2 else 0)
+          | none => true),
+        "rule9 pessimistic action of a prewritten key does not follow its lock state (locked: pessimistic check; lazy: constraint check)") ]
   | .secCheck client startTS =>
     -- rule 5: async-commit recovery starts only after the ttl that THIS resolver's status check on the primary was shown
     -- has elapsed on a clock it can have seen (GC's batch resolution works below the safe point and is exempt)
@@ -266,6 +280,10 @@ def applyEv (m : MState) : Ev → MState
     m.upd { t with lastAdvise := advise, beatsAfterEnd := if t.ended then t.beatsAfterEnd + 1 else t.beatsAfterEnd,
                    beats := if _fate == .answered || _fate == .lostResp then t.beats + 1 else t.beats }
   | .secCheck _ _ => m
+  | .prewriteActs _ _ _ => m
+  | .bufLazy client startTS key =>
+    let t := m.get startTS client
+    m.upd { t with buffer := bufUpd t.buffer key fun b => { b with lazyCheck := true } }
   | .plock client fate startTS _primary keys ok =>
     let t := m.get startTS client
     if (fate == .answered && ok) || fate == .lostResp || fate == .unknownNotExec then
